@@ -210,6 +210,14 @@ func (fx *fnExec) applyContract(dst *ssa.Call, ctr *FuncContract, name string, c
 		if i < len(pn) {
 			env.names[pn[i]] = a
 			env.names[pn[i]+"0"] = a
+			if _, isAd := a.(Ad); isAd {
+				// an argument of the form &x / &x.f: the parameter is a pointer to that place
+				if env.ptrNames == nil {
+					env.ptrNames = map[string]bool{}
+				}
+				env.ptrNames[pn[i]] = true
+				env.ptrNames[pn[i]+"0"] = true
+			}
 		}
 		env.names[fmt.Sprintf("arg%d", i)] = a
 	}
